@@ -18,7 +18,7 @@ ANCHORS = ["occupancy_shape_from_state", "DynamicObstacle.occupancy_at_time", "D
            "TrajectoryPrediction._create_occupancy_set", "Scenario.occupancies_at_time_step",
            "Scenario.obstacle_states_at_time_step", "Scenario.obstacles_by_role_and_type",
            "Scenario.obstacles_by_position_intervals"]
-REQUIRED = ["requery-after.trajectory.translate_rotate", "requery-after.prediction.shape=", "role.static", "role.dynamic", "role.phantom", "role.environment", "pred.trajectory", "pred.gap", "pred.set",
+REQUIRED = ["set.intervals-sharing-a-step", "requery-after.trajectory.translate_rotate", "requery-after.prediction.shape=", "role.static", "role.dynamic", "role.phantom", "role.environment", "pred.trajectory", "pred.gap", "pred.set",
             "pred.set-interval", "pred.none", "state.PMState", "state.KSState", "state.MBState", "state.CustomState",
             "exact-placement.Rectangle", "exact-placement.Circle", "exact-placement.Polygon",
             "exact-placement.ShapeGroup", "uncertain-position.Rectangle", "uncertain-position.Circle",
@@ -136,14 +136,20 @@ def run(ctx):
         elif pk in ("set", "set-interval"):
             n = rng.randint(1, 5)
             occs, t = [], t0 + 1
+            touching = pk == "set-interval" and (i // 5) % 3 == 1
             for k in range(n):
                 if pk == "set-interval" and rng.random() < 0.6:
-                    w = rng.randint(0, 2)
+                    w = rng.randint(0, 2) + (1 if touching else 0)
                     occs.append(Occupancy(Interval(t, t + w), G.shape()))
-                    t += w + 1
+                    # touching: the next occupancy starts AT the last step of this interval (both cover that step)
+                    t += w + (0 if touching else 1)
+                    if touching:
+                        ctx.feature("set.intervals-sharing-a-step")
                 else:
                     occs.append(Occupancy(t, G.shape()))
-                    t += 1
+                    t += 0 if touching and rng.random() < 0.5 else 1
+            if touching:
+                t += 1
             pred = SetBasedPrediction(t0 + 1, occs)
             tf = t - 1
         ctx.feature("pred." + pk)
